@@ -41,7 +41,7 @@ B64_ENC = layers.BY_NAME["b64"]
 
 
 def c13_case(r):
-    k = r.randrange(12)
+    k = r.randrange(13)
     if k == 0:  # every length / padding form through the call forms
         p = rand_payload(r, r.randint(1, 64))
         return from_encoder(r, r.choice(["atob", "Base64Decode", "FromBase64String"]), p)
@@ -66,6 +66,15 @@ def c13_case(r):
             if 0 < t.count(b"/") / len(t) <= 3 / 32 and B64_ENC.dom(p):
                 return from_encoder(r, "b64", p)
         return None
+    if k == 12:  # boundary of the "not pure hex" rule: hex digits plus a single sign / prefix character
+        n = r.choice([24, 28, 32])
+        head = r.choice([b"+", b"0x", b"0X", b"+0x", b"-"[:0] + b"/", b"x"])
+        hexchars = b"0123456789abcdef" if r.random() < 0.5 else b"0123456789ABCDEF"
+        t = head + bytes(r.choice(hexchars) for _ in range(n - len(head)))
+        p = base64.b64decode(t)
+        if base64.b64encode(p) != t or not B64_ENC.dom(p):
+            return None
+        return rec_single(r, "b64-hexlike", "", "encoding.base64", t, p)
     if k == 5:  # line-broken base64
         p = rand_payload(r, r.randint(30, 120))
         if not B64_ENC.dom(p):
@@ -154,7 +163,9 @@ def c14_case(r):
         chars = bytes(r.choice(allowed) for _ in range(r.choice([7, 8, 9, 30])))
         blob = chars.decode("latin-1").encode("utf-16-le")
         plain = chars.decode("latin-1").encode("utf-8")
-        return rec_single(r, "utf16-latin1", "", "codec.uft-16", blob, plain)
+        # also right behind byte pairs that read as a byte-order mark
+        delims = r.choice([(b" ", b" "), (b" ", b" "), (b"\xff\xfe", b" "), (b"\xfe\xff", b" "), (b"\xff", b"\xff"), (b"\x01\x02", b"\x03")])
+        return rec_single(r, "utf16-latin1", "", "codec.uft-16", blob, plain, delims)
     if k == 6:
         p = rand_payload(r, r.randint(7, 40), bytes(range(32, 127)))
         return from_encoder(r, "utf16", p)
